@@ -297,3 +297,177 @@ def besthand_check(prop, tier, seed, work, replay):
 
 
 REGISTRY["C10"] = besthand_check
+
+
+# ------------------------------------------------------------------ C08 / C17 / C18
+SEAT_TIER = {
+    "quick": dict(mc=[(3, "{1,2,3,4}")], explore=[(3, 4, [])], anon=[(5, ["-emit", "next", "-sample", "4"])],
+                  random_runs=400, steps=70, sim_num=200, conc_runs=150),
+    "thorough": dict(mc=[(3, "{1,2,3,4}"), (4, "{1,2,3,4,5}"), (5, "{1,2,3,4,5,6}")], explore=[(3, 4, []), (4, 5, ["-emit", "changing"])],
+                     anon=[(5, ["-emit", "changing"]), (6, ["-emit", "next", "-sample", "6"])],
+                     random_runs=12000, steps=90, sim_num=3000, conc_runs=3000),
+}
+SEAT_IGNORE = '{"C08.lateJoiner.seatStillActive"}'     # known finding F8: reported from real traces, not from the model
+
+
+def seat_sim_scripts(work, num, seed, outpath):
+    d = work.sub("seatsim")
+    vlib.spec_copy(d)
+    vlib.write_cfg(os.path.join(d, "SimSeat.cfg"), constants={"MaxSet": "{2,3,4,5,6,7}"}, invariants=["Dump"])
+    rc, out = vlib.tlc(d, "SimSeat.tla", "SimSeat.cfg", workers=1, timeout=900,
+                       extra=["-simulate", "num=%d" % num, "-depth", "60", "-seed", str(seed)])
+    seen, n = set(), 0
+    with open(outpath, "w") as f:
+        for line in out.splitlines():
+            if not line.startswith('<<"SCRIPT", "'):
+                continue
+            js = line[len('<<"SCRIPT", "'):-len('">>')].encode().decode("unicode_escape")
+            if js in seen:
+                continue
+            seen.add(js)
+            hist = json.loads(js)
+            f.write(json.dumps(dict(run=900000 + n, max=hist[0]["max"], ops=[dict(op=o["op"], seat=o["seat"], p=o["p"]) for o in hist[1:]])) + "\n")
+            n += 1
+    if n == 0:
+        raise Inconclusive("TLC simulation produced no seat scripts:\n" + out[-1500:])
+    return n
+
+
+def seat_check(prop, tier, seed, work, replay):
+    t0 = time.time()
+    T = SEAT_TIER[tier]
+    binary = vlib.build_harness(work)
+
+    def run_script(desc, d):
+        sp = os.path.join(d, "s.ndjson")
+        open(sp, "w").write(json.dumps(desc["script"]) + "\n")
+        out = os.path.join(d, "out.ndjson")
+        vlib.drive(binary, ["seat-replay", "-scripts", sp, "-o", out])
+        return out
+
+    if replay:
+        desc = json.load(open(replay))
+        d = work.sub("replay")
+        if desc["kind"] == "seat-script":
+            out = run_script(desc, d)
+        elif desc["kind"] == "seat-explore":
+            out = os.path.join(d, "out.ndjson")
+            vlib.drive(binary, desc["args"] + ["-o", out], timeout=3600)
+        else:
+            out = os.path.join(d, "out.ndjson")
+            vlib.drive(binary, ["seat-conc", "-runs", desc["runs"], "-seed", desc["seed"], "-o", out])
+        r = vlib.validate(work, [out], "SeatTrace.tla", [prop], nchunks=4, heap="3g")
+        bad = [x for x in r["viol"] if x["clause"] == desc["clause"]]
+        if bad:
+            print("VIOLATION property=%s replay=%s" % (prop, replay))
+            return 1
+        print("replay of %s: clause %s holds" % (replay, desc["clause"]))
+        return 0
+
+    mcs = []
+    for mx, players in T["mc"]:
+        mcs.append(generic_mc(work, "MCSeat.tla", "mcseat%d" % mx,
+                              dict(MaxSeats=str(mx), Players=players, Props=vlib.tla_set([prop]), Ignore=SEAT_IGNORE),
+                              invariants=["NoCrash"] if prop == "C18" else [], properties=["StepHolds"], view="View", timeout=3400))
+    if prop == "C18":
+        mcs.append(generic_mc(work, "SeatJoinConc.tla", "conc", dict(Procs="{1,2,3}", MaxSeats="2", UseMutex="TRUE"),
+                              invariants=["MutualExclusion", "EpisodeOK"]))
+    mc_cmp = generic_mc(work, "MCSeat.tla", "mcseatcmp", dict(MaxSeats="3", Players="{1,2,3,4}", Props="{}", Ignore="{}"), view="CmpView")
+    for m in mcs:
+        if not m["ok"]:
+            print("MODEL-NOTE: clauses of %s violated in the MODEL (%s): not a verdict (R1)" % (prop, m["violated"]))
+
+    d = work.sub("seat")
+    files = {}
+    stats = {}
+    for mx, pl, extra in T["explore"]:
+        f = os.path.join(d, "explore%d.ndjson" % mx)
+        args = ["seat-explore", "-max", mx, "-players", pl] + extra
+        stats["explore%d" % mx] = vlib.drive(binary, args + ["-o", f], timeout=3600)
+        files[f] = dict(kind="seat-explore", args=[str(a) for a in args])
+    # larger tables: the implementation's graph up to player identities (the manager never looks at them)
+    for mx, extra in T["anon"]:
+        f = os.path.join(d, "anon%d.ndjson" % mx)
+        args = ["seat-explore", "-max", mx, "-players", mx + 1, "-anon", "-fork", "snapshot", "-seed", seed] + extra
+        stats["anon%d" % mx] = vlib.drive(binary, args + ["-o", f], timeout=3600)
+        files[f] = dict(kind="seat-explore", args=[str(a) for a in args])
+    f = os.path.join(d, "random.ndjson")
+    scr = os.path.join(d, "random.scripts")
+    stats["random"] = vlib.drive(binary, ["seat-random", "-runs", T["random_runs"], "-steps", T["steps"], "-seed", seed, "-o", f, "-scripts", scr])
+    files[f] = dict(kind="seat-script", scripts=scr)
+    simf = os.path.join(d, "sim.scripts")
+    nsim = seat_sim_scripts(work, T["sim_num"], seed, simf)
+    f = os.path.join(d, "sim.ndjson")
+    scr2 = os.path.join(d, "sim.out.scripts")
+    stats["sim"] = vlib.drive(binary, ["seat-replay", "-scripts", simf, "-o", f, "-out-scripts", scr2])
+    files[f] = dict(kind="seat-script", scripts=scr2)
+    if prop == "C18":
+        f = os.path.join(d, "conc.ndjson")
+        stats["conc"] = vlib.drive(binary, ["seat-conc", "-runs", T["conc_runs"], "-seed", seed, "-o", f], timeout=1200)
+        files[f] = dict(kind="seat-conc", runs=T["conc_runs"], seed=seed)
+    res = vlib.validate(work, sorted(files), "SeatTrace.tla", [prop], nchunks=max(4, vlib.NCPU // 2), heap="3g", maxviol=200)
+    log("[val] %d lines, %d failed clauses, %d drift, %.0fs" % (res["lines"], len(res["viol"]), len(res["drift"]), res["tlc_s"]))
+
+    def sig(v, line, rs):
+        return "%s|op=%s" % (v["clause"], (line or {}).get("op", (line or {}).get("kind")))
+
+    def repro(v, line, rs):
+        info = files[v["src"]]
+        dd = work.sub("repro")
+        desc = dict(kind=info["kind"], clause=v["clause"], failing_line=line)
+        if info["kind"] == "seat-script":
+            s = None
+            for raw in open(info["scripts"]):
+                if raw.strip() and json.loads(raw)["run"] == line["run"]:
+                    s = json.loads(raw)
+            if s is None:
+                return False, None
+            desc["script"] = s
+            out = run_script(desc, dd)
+        elif info["kind"] == "seat-explore":
+            desc.update(args=info["args"], state=rs)
+            out = os.path.join(dd, "out.ndjson")
+            vlib.drive(binary, info["args"] + ["-o", out], timeout=3600)
+        else:
+            desc.update(runs=info["runs"], seed=info["seed"])
+            out = os.path.join(dd, "out.ndjson")
+            vlib.drive(binary, ["seat-conc", "-runs", info["runs"], "-seed", info["seed"], "-o", out])
+        r = vlib.validate(work, [out], "SeatTrace.tla", [prop], nchunks=4, heap="3g", maxviol=200)
+        return any(x["clause"] == v["clause"] for x in r["viol"]), desc
+
+    rc, nviol, known_hit = verdict.judge(prop, tier, seed, res["viol"], sig, repro)
+    real_states = stats["explore3"].get("distinct")
+    both = dict(model_distinct=mc_cmp["distinct"], real_distinct=real_states, equal=mc_cmp["distinct"] == real_states)
+    if not both["equal"]:
+        print("MODEL-DRIFT: the real seat manager reaches %s distinct seat maps on 3 seats, the model %s" % (real_states, mc_cmp["distinct"]))
+    if res["drift"]:
+        print("MODEL-DRIFT: %d recorded calls are not steps of the precise model; not a verdict" % len(res["drift"]))
+    cnt = res["cnt"]
+    rf = [f for f in files if f.endswith("random.ndjson")][0]
+    coverage = {
+        "states": sum(m["distinct"] for m in mcs), "transitions": sum(m["generated"] for m in mcs),
+        "traces_validated_against_impl": int(cnt.get("runs", 0)) + int(cnt.get("conc.episodes", 0)),
+        "samples": [{"calls": [[x["op"], x["seat"], x["p"], x["got"], x["res"]] for x in vlib.read_lines(rf, 2, 16)]}],
+        "model_checking": mc_summary(mcs + [mc_cmp]),
+        "both_sides_exploration": both,
+        "real_calls_validated": res["lines"], "real_calls_by_source": stats, "tlc_scripts": nsim,
+        "antecedents_exercised_on_real_code": cnt,
+        "model_drift_lines": len(res["drift"]), "known_findings_hit": known_hit,
+        "failed_clauses": sorted({v["clause"] for v in res["viol"]}),
+        "exhaustive": False,
+    }
+    vlib.write_evidence(prop, tier, seed, coverage, time.time() - t0, nviol,
+                        assumptions=["projection drv_seat.go", "every Join uses a fresh player id (the manager does not know player identity)",
+                                     "C18 schedules: the gate hook decides check/commit interleavings of Join; the Go memory model is not explored"])
+    need = {"C08": ["C08.positions.n2", "C08.positions.n3", "C08.lateJoiner", "C08.lateJoiner.dealtIn"],
+            "C17": ["C17.button", "C17.insufficient"],
+            "C18": ["C18.joinAny", "C18.joinAny.full", "conc.episodes", "conc.blockedOnMutex", "conc.sameSeat"]}[prop]
+    missing = [a for a in need if cnt.get(a, 0) == 0]
+    if rc == 0 and missing:
+        print("INCONCLUSIVE property=%s never exercised: %s" % (prop, ",".join(missing)))
+        return 2
+    return rc
+
+
+for _p in ("C08", "C17", "C18"):
+    REGISTRY[_p] = seat_check
